@@ -326,6 +326,76 @@ def sec_selfcheck(rep, seed):
     rep.add(Ob("C16/selfcheck/classification-canary", "canary", PROVED if ok else "error", "eval", 0, "KeyError -> internal, ValueError(msg) -> explicit, ValueError('') -> internal"))
 
 
+def _real_run(th_over, ob_over):
+    """One real Runner (real numpy, real eko, real card types) -> ('ok'|'explicit-rejection'|'internal:..', detail)."""
+    import warnings
+
+    from yadism import runner as rmod
+
+    exc, out = None, None
+    try:
+        with warnings.catch_warnings():
+            warnings.simplefilter("ignore")
+            r = rmod.Runner(H.base_theory(**th_over), H.base_obs(**ob_over))
+            out = r.get_result()
+    except Exception as e:  # noqa
+        exc = e
+    v = classify(exc)
+    if exc is None:
+        bad = [
+            name
+            for name, pts in out.items()
+            if isinstance(pts, list) and pts and hasattr(pts[0], "orders")
+            for pt in pts
+            for val, err in pt.orders.values()
+            if not (np.isfinite(val).all() and np.isfinite(err).all())
+        ]
+        if bad:
+            return "internal:non-finite", f"non-finite entries in {sorted(set(bad))}"
+        return "ok", "finite operator"
+    return v, f"{type(exc).__name__}: {exc}"
+
+
+def sec_real_types(rep):
+    """Companion of the symbolic contracts on the REAL types of a run (numpy scalars out of np.sqrt /
+    np.power, Python floats and ints out of a card): every structure function x TMC mode returns a
+    finite operator or rejects explicitly at a valid point (LO, 6-node grid), and every cross-section
+    kind rejects explicitly -- no ZeroDivisionError, no result -- kinematics outside 0<x<=1, Q2>0."""
+    from . import c11
+
+    rep.under_contract(__import__("yadism.esf.exs", fromlist=["x"]).EvaluatedCrossSection.__init__)
+    lo = dict(PTO=0, PTODIS=0, FNS="ZM-VFNS", NfFF=4)
+    for kind in H.SF_KINDS:
+        for tmc in (1, 2, 3):
+            for mp in (0.938, np.float64(0.5)):
+                rep.cases += 1
+                v, detail = _real_run(dict(lo, TMC=tmc, MP=mp), dict(prDIS="NC", observables={f"{kind}_total": [{"x": 0.3, "Q2": 10.0}, {"x": np.float64(0.1), "Q2": 4}]}))
+                ok = not v.startswith("internal")
+                rep.add(ob_eval(f"C16/real-types/{kind}_total/TMC={tmc}/MP:{type(mp).__name__}/finite-or-explicit", ok, detail=f"{v}: {detail}", inputs={} if ok else {"kind": kind, "TMC": tmc, "MP": repr(mp), "observed": detail}, replay={"confirmed": True, "python": f"Runner(base_theory(PTO=0, PTODIS=0, TMC={tmc}, MP={mp!r}), {{'{kind}_total': [...]}}).get_result()"}))
+    mw = H.base_theory()["MW"]
+    invalid = {
+        "x=0.0": {"x": 0.0, "Q2": 10.0}, "x=0": {"x": 0, "Q2": 10.0}, "x=np.float64(0)": {"x": np.float64(0.0), "Q2": 10.0}, "x=-0.1": {"x": -0.1, "Q2": 10.0},
+        "x=1.5": {"x": 1.5, "Q2": 10.0}, "x-below-grid": {"x": min(H.GRID) / 10, "Q2": 10.0}, "Q2=0.0": {"x": 0.3, "Q2": 0.0}, "Q2=0": {"x": 0.3, "Q2": 0},
+        "Q2=np.float64(0)": {"x": 0.3, "Q2": np.float64(0.0)}, "Q2=-1.0": {"x": 0.3, "Q2": -1.0}, "Q2=-MW^2": {"x": 0.3, "Q2": -(mw**2)},
+    }
+    for kind in c11.UNPOL + ("g5",):
+        pr = "CC" if kind in ("XSHERACC", "XSCHORUSCC", "XSNUTEVCC", "XSNUTEVNU", "FW", "XSFPFCC") else "NC"
+        proj = "neutrino" if pr == "CC" else "electron"
+        for tmc in (0, 1):
+            rep.cases += 1
+            v, detail = _real_run(dict(lo, TMC=tmc), dict(prDIS=pr, ProjectileDIS=proj, observables={f"{kind}_total": [{"x": 0.3, "Q2": 10.0, "y": 0.5}]}))
+            if kind == "g5":  # polarised CC is documented as unsupported: explicit rejection is the contract
+                ok = not v.startswith("internal")
+            else:
+                ok = v == "ok"
+            rep.add(ob_eval(f"C16/real-types/{kind}_total/TMC={tmc}/cover(valid point accepted)", ok, kind="cover", detail=f"{v}: {detail}"))
+            for nm, kin in invalid.items():
+                rep.cases += 1
+                v, detail = _real_run(dict(lo, TMC=tmc), dict(prDIS=pr, ProjectileDIS=proj, observables={f"{kind}_total": [dict(kin, y=0.5)]}))
+                ok = v == "explicit-rejection"
+                rep.add(ob_eval(f"C16/real-types/{kind}_total/TMC={tmc}/{nm}/rejected-explicitly", ok, detail=f"{v}: {detail}", inputs={} if ok else dict(kind=kind, TMC=tmc, observed=detail, **{k: repr(x_) for k, x_ in kin.items()}), replay={"confirmed": True, "python": f"Runner(LO theory TMC={tmc}, {{'{kind}_total': [{dict(kin, y=0.5)!r}]}}).get_result()"}))
+
+
 def sec_runner_totality(rep):
     """Runner.get_result returns for observables with 0, 1, 2, 3 points in every Q2 ordering (ties
     included) -- no internal index error for an empty or single-point observable: the result-placement
@@ -351,7 +421,7 @@ def run(rep, tier, seed, only=None):
         "in-repo formulas finite on their domain: C03 definedness obligations (run under C03)",
         "explicit rejection := ValueError / NotImplementedError / RuntimeError with a non-empty message",
     )
-    for nm, f in (("dispatch", lambda r: sec_dispatch(r, tier)), ("tmc", sec_tmc_dispatch), ("kinematics", sec_kinematics), ("nans", sec_nans), ("svhistory", sec_sv_history), ("runnertotality", sec_runner_totality)):
+    for nm, f in (("dispatch", lambda r: sec_dispatch(r, tier)), ("tmc", sec_tmc_dispatch), ("kinematics", sec_kinematics), ("nans", sec_nans), ("svhistory", sec_sv_history), ("runnertotality", sec_runner_totality), ("realtypes", sec_real_types)):
         if only and only not in nm:
             continue
         rep.add(guarded(f"C16/{nm}", lambda f=f: (f(rep), [])[1]))
